@@ -1561,3 +1561,198 @@ Proof.
   intros Hr HS Hm Hd Hl Hn Hin. simpl. exists its, r. split; [exact Hr|]. split; [exact Hn|]. left.
   exists (SCall m args); split; [exact Hin|]. eapply self_referential_bad; eauto.
 Qed.
+
+(* ------------------------------------------------------------------ stage 0: every outer attribute reaches the item it is
+   written in front of, whatever the position of the item and with or without a struct signature *)
+
+Lemma hand_out_nil {X} (items : list (list rattr * X)) : hand_out [] items = items.
+Proof. induction items as [|[own x] tl IH]; simpl; [reflexivity | now rewrite IH]. Qed.
+
+Theorem distribute_exact {X} sig (items : list (list rattr * X)) : distribute sig items = (sig, items).
+Proof.
+  destruct sig as [a|]; unfold distribute; simpl.
+  - now rewrite hand_out_nil.
+  - destruct items as [|[a x] tl]; simpl; [reflexivity|]. rewrite hand_out_nil. destruct a; reflexivity.
+Qed.
+
+Lemma parse_src_eq src : parse_src src = map give1 src.
+Proof. unfold parse_src. now rewrite distribute_exact. Qed.
+
+Lemma parse_text_items T : p_items (parse_text T) = map give (t_items T).
+Proof. unfold parse_text; simpl. now rewrite distribute_exact. Qed.
+
+Lemma sig_attrs_exact T : sig_attrs T = t_sig T.
+Proof. unfold sig_attrs. now rewrite distribute_exact. Qed.
+
+Definition nonrel0 (b : bare0) : Prop := match b with BRel _ _ _ => False | _ => True end.
+
+(* an attribute on a non-relation item: item p of the text (q = 0) or item q-1 of the source included at p *)
+Inductive attr_on_nonrel (T : text) : nat -> nat -> Prop :=
+| an_plain p a b : nth_error (t_items T) p = Some (a, BPlain b) -> a <> [] -> nonrel0 b -> attr_on_nonrel T p 0
+| an_incl p a src : nth_error (t_items T) p = Some (a, BInclude src) -> a <> [] -> attr_on_nonrel T p 0
+| an_src_plain p a src q a' b : nth_error (t_items T) p = Some (a, BInclude src) -> nth_error src q = Some (a', B1Plain b) ->
+    a' <> [] -> nonrel0 b -> attr_on_nonrel T p (S q)
+| an_src_incl p a src q a' : nth_error (t_items T) p = Some (a, BInclude src) -> nth_error src q = Some (a', B1Include) ->
+    a' <> [] -> attr_on_nonrel T p (S q).
+
+Lemma length_pos_nonnil {A} (a : list A) : 0 < length a <-> a <> [].
+Proof. destruct a; simpl; split; intros H; try lia; try congruence. Qed.
+
+Lemma give0_bad_attr a b : item0_bad (give0 a b) EUnexpectedAttr <-> a <> [] /\ nonrel0 b.
+Proof.
+  destruct b as [n tys lat | r | m]; simpl; split.
+  - intros H; inversion H.
+  - intros [_ []].
+  - intros H; inversion H; subst. split; [now apply length_pos_nonnil | exact I].
+  - intros [H _]; constructor; now apply length_pos_nonnil.
+  - intros H; inversion H; subst. split; [now apply length_pos_nonnil | exact I].
+  - intros [H _]; constructor; now apply length_pos_nonnil.
+Qed.
+
+Lemma nth_error_map_some {A B} (f : A -> B) l n y : nth_error (map f l) n = Some y <-> exists x, nth_error l n = Some x /\ f x = y.
+Proof.
+  revert n; induction l as [|x tl IH]; intros n; destruct n; simpl; split; try (intros [x0 [H _]]; discriminate); try discriminate.
+  - intros H; injection H as <-; eauto.
+  - intros [x0 [H <-]]; injection H as <-; reflexivity.
+  - apply IH.
+  - apply IH.
+Qed.
+
+(* the parse-level violation "unexpected attribute(s)" of the parsed text is exactly an attribute written in front of a
+   rule, a macro definition or an include_source! *)
+Theorem attr_on_nonrel_parse_bad T p q : parse_bad (p_items (parse_text T)) p q EUnexpectedAttr <-> attr_on_nonrel T p q.
+Proof.
+  rewrite parse_text_items, parse_bad_nth. split.
+  - intros [x [Hn Hx]]. apply nth_error_map_some in Hn as [[a b] [Hn <-]]. unfold give in Hx; simpl in Hx.
+    destruct b as [b|src]; simpl in Hx.
+    + destruct Hx as [-> Hx]. apply give0_bad_attr in Hx as [Ha Hb]. eapply an_plain; eauto.
+    + destruct Hx as [[-> [Ha _]] | [q' [-> Hb]]]; [eapply an_incl; eauto; now apply length_pos_nonnil|].
+      rewrite parse_src_eq in Hb. apply src_bad_nth in Hb as [x1 [Hn1 Hx1]].
+      apply nth_error_map_some in Hn1 as [[a' b1] [Hn1 <-]]. unfold give1 in Hx1; simpl in Hx1.
+      destruct b1 as [b|]; simpl in Hx1.
+      * apply give0_bad_attr in Hx1 as [Ha' Hb']. eapply an_src_plain; eauto.
+      * destruct Hx1 as [[Ha' _] | [_ Hx1]]; [| discriminate]. eapply an_src_incl; eauto. now apply length_pos_nonnil.
+  - intros H; destruct H as [p a b Hn Ha Hb | p a src Hn Ha | p a src q a' b Hn Hn' Ha' Hb | p a src q a' Hn Hn' Ha'].
+    + exists (give (a, BPlain b)); split; [apply nth_error_map_some; eauto|]. unfold give; simpl. split; [reflexivity | now apply give0_bad_attr].
+    + exists (give (a, BInclude src)); split; [apply nth_error_map_some; eauto|]. unfold give; simpl. left; split; [reflexivity|]. split; [now apply length_pos_nonnil | reflexivity].
+    + exists (give (a, BInclude src)); split; [apply nth_error_map_some; eauto|]. unfold give; simpl. right; exists q; split; [reflexivity|].
+      rewrite parse_src_eq. apply src_bad_nth. exists (give1 (a', B1Plain b)); split; [apply nth_error_map_some; eauto|].
+      unfold give1; simpl. now apply give0_bad_attr.
+    + exists (give (a, BInclude src)); split; [apply nth_error_map_some; eauto|]. unfold give; simpl. right; exists q; split; [reflexivity|].
+      rewrite parse_src_eq. apply src_bad_nth. exists (give1 (a', B1Include)); split; [apply nth_error_map_some; eauto|].
+      unfold give1; simpl. left; split; [now apply length_pos_nonnil | reflexivity].
+Qed.
+
+Theorem attr_on_nonrel_occurs c0 T k p q : attr_on_nonrel T p q -> occurs c0 (parse_text T) k (VParse p q EUnexpectedAttr).
+Proof. intros H; simpl. now apply attr_on_nonrel_parse_bad. Qed.
+
+(* rejection is complete for the class, at every position, with and without a signature *)
+Theorem text_attr_rejected c0 T k p q : attr_on_nonrel T p q ->
+  exists e l, check_text c0 T k = Reject e /\ check_loc c0 (parse_text T) k = Err e l /\ loc_le l (1, p, q).
+Proof.
+  intros H. apply (attr_on_nonrel_occurs c0 T k) in H. destruct (reject_complete _ _ _ _ H) as [e [l [H1 H2]]].
+  exists e, l; split; [| split; [exact H1 | exact H2]]. unfold check_text, check. now rewrite H1.
+Qed.
+
+Lemma invoke_bad_not_attr ms m args e : invoke_bad ms m args e -> e <> EUnexpectedAttr.
+Proof. intros H; destruct H; discriminate. Qed.
+Lemma bad_item_not_attr ms f e it : bad_item ms f e it -> e <> EUnexpectedAttr.
+Proof. intros H; induction H; [discriminate | eapply invoke_bad_not_attr; eauto | assumption]. Qed.
+Lemma bad_hitem_not_attr ms f e h : bad_hitem ms f e h -> e <> EUnexpectedAttr.
+Proof. intros H; induction H; [discriminate | eapply invoke_bad_not_attr; eauto | discriminate | assumption]. Qed.
+
+(* ... and sound: "unexpected attribute(s)" is reported only for such an attribute *)
+Theorem text_attr_reject_sound c0 T k : check_text c0 T k = Reject EUnexpectedAttr -> exists p q, attr_on_nonrel T p q.
+Proof.
+  unfold check_text, check. intros H. destruct (check_loc c0 (parse_text T) k) as [[]|e l|] eqn:E; simpl in H; try discriminate.
+  injection H as ->. apply reject_sound in E as [v [Hv [_ He]]].
+  destruct v as [p q e | ri e | ri ei e | j e | di j e | a rel]; simpl in He; subst; simpl in Hv.
+  - exists p, q; now apply attr_on_nonrel_parse_bad.
+  - exfalso. destruct Hv as [its [r [_ [_ [[it [_ Hb]] | [h [_ Hb]]]]]]].
+    + now apply bad_item_not_attr in Hb.
+    + now apply bad_hitem_not_attr in Hb.
+  - exfalso. destruct Hv as [its [cr [r [_ [_ Hb]]]]]. inversion Hb.
+  - exfalso. inversion Hv.
+  - exfalso. destruct Hv as [its [d [_ [_ Hb]]]]. inversion Hb.
+  - discriminate.
+Qed.
+
+(* the seeded shape, exactly: a signature-less text whose FIRST item is a rule, a macro definition or an include_source!
+   carrying an attribute is rejected with this class by the invocation itself and by the resolved program *)
+Theorem first_item_attr_rejected c0 T k a x tl : t_items T = (a, x) :: tl -> a <> [] ->
+  match x with BPlain b => nonrel0 b | BInclude _ => True end ->
+  invoke_text c0 T k = Reject EUnexpectedAttr /\ check_text c0 T k = Reject EUnexpectedAttr.
+Proof.
+  intros Hi Ha Hx. unfold invoke_text, check_text, invoke, check, check_loc. rewrite parse_text_items, Hi. simpl.
+  apply length_pos_nonnil in Ha. apply Nat.ltb_lt in Ha.
+  destruct x as [b|src]; unfold give; simpl.
+  - destruct b as [n tys lat | r | m]; simpl in *; [contradiction | |]; rewrite Ha; simpl; auto.
+  - rewrite Ha; simpl; auto.
+Qed.
+
+(* an attribute on a relation is never an error of this class: it is handed to the relation, first item or not *)
+Theorem rel_attrs_reach_relation T p a n tys lat : nth_error (t_items T) p = Some (a, BPlain (BRel n tys lat)) ->
+  nth_error (p_items (parse_text T)) p = Some (IPlain (IRel {| d_name := n; d_tys := tys; d_lat := lat; d_attrs := a |})).
+Proof. intros H. rewrite parse_text_items. apply nth_error_map_some. eexists; split; [exact H | reflexivity]. Qed.
+
+(* ------------------------------------------------------------------ patterns: what the helper reports vs what is bound *)
+
+Section PatInd.
+  Context {V : Type} (Q : pat V -> Prop).
+  Hypothesis Hvar : forall x, Q (PVar x).
+  Hypothesis Hat : forall x p, Q p -> Q (PAt x p).
+  Hypothesis Hwild : Q PWild.
+  Hypothesis Hparen : forall p, Q p -> Q (PParen p).
+  Hypothesis Href : forall p, Q p -> Q (PRef p).
+  Hypothesis Hseq : forall ps, Forall Q ps -> Q (PSeq ps).
+  Fixpoint pat_ind' (p : pat V) : Q p :=
+    match p with
+    | PVar x => Hvar x
+    | PAt x q => Hat x q (pat_ind' q)
+    | PWild => Hwild
+    | PParen q => Hparen q (pat_ind' q)
+    | PRef q => Href q (pat_ind' q)
+    | PSeq ps => Hseq ps ((fix go (l : list (pat V)) : Forall Q l :=
+                            match l with [] => Forall_nil Q | x :: tl => Forall_cons x (pat_ind' x) (go tl) end) ps)
+    end.
+End PatInd.
+
+(* no parenthesised sub-pattern *)
+Fixpoint paren_free {V} (p : pat V) : bool :=
+  match p with
+  | PVar _ | PWild => true
+  | PAt _ q | PRef q => paren_free q
+  | PParen _ => false
+  | PSeq ps => forallb paren_free ps
+  end.
+
+(* the helper never reports a variable the pattern does not bind *)
+Theorem pat_vars_sound {V} b (p : pat V) : incl (pat_vars b p) (pat_binds p).
+Proof.
+  unfold pat_binds. induction p using pat_ind'; simpl.
+  - apply incl_refl.
+  - intros y Hy; simpl in Hy |- *. destruct Hy as [<- | Hy]; [now left | right; now apply IHp].
+  - apply incl_refl.
+  - destruct b; [exact IHp | intros y []].
+  - exact IHp.
+  - intros y Hy. apply in_flat_map in Hy as [q [Hq Hy]]. apply in_flat_map. exists q; split; [exact Hq|].
+    rewrite Forall_forall in H. now apply (H q Hq).
+Qed.
+
+(* with the Pat::Paren arm it reports exactly the bound variables *)
+Theorem pat_vars_complete_with_paren_arm {V} (p : pat V) : pat_vars true p = pat_binds p.
+Proof. reflexivity. Qed.
+
+(* without it, exactly on the patterns free of parentheses *)
+Theorem pat_vars_complete_paren_free {V} (p : pat V) : paren_free p = true -> pat_vars false p = pat_binds p.
+Proof.
+  unfold pat_binds. induction p using pat_ind'; simpl; intros Hf; try reflexivity; try discriminate.
+  - now rewrite IHp.
+  - now apply IHp.
+  - rewrite forallb_forall in Hf. rewrite Forall_forall in H. induction ps as [|q tl IH]; simpl; [reflexivity|].
+    rewrite (H q (or_introl eq_refl)) by (apply Hf; now left). f_equal.
+    apply IH; [intros x Hx; apply H; right; exact Hx | intros x Hx; apply Hf; right; exact Hx].
+Qed.
+
+Theorem get_vars_sound {V} (p : pat V) : incl (get_vars p) (pat_binds p).
+Proof. apply pat_vars_sound. Qed.
